@@ -19,6 +19,7 @@ import (
 	"os"
 	"sort"
 	"sync"
+	"sync/atomic"
 	"time"
 
 	"github.com/google/uuid"
@@ -45,6 +46,24 @@ type bsEvent struct {
 
 type bsNodeKey struct{}
 
+// bsHeaders is the header repository the node manager sees: the real repository, with one extra power -
+// when armed, a new header is accepted right after LastHash() has been answered, i.e. between two reads
+// of the repository by the synchronisation ("for every point at which new headers ... arrive").
+type bsHeaders struct {
+	*headers.Repository
+	w *bsWorld
+}
+
+func (h *bsHeaders) LastHash() bitcoin.Hash32 {
+	r := h.Repository.LastHash()
+	if atomic.CompareAndSwapInt32(&h.w.armed, 1, 0) {
+		if h.w.appendHeader() {
+			atomic.AddInt32(&h.w.injected, 1)
+		}
+	}
+	return r
+}
+
 type bsBlock struct {
 	id     int
 	height int
@@ -66,14 +85,20 @@ type bsWorld struct {
 	events  []bsEvent
 	lastReq [2]int
 	nodes   []*bsNode
-	serving map[int]int           // per block id: sources currently working on it
-	gates   map[int]chan struct{} // per block id: closed when a second source is asked (simultaneous scenario)
-	fail    map[int][]string      // per block id: outcomes of successive RequestBlock calls before it is served
-	hold    map[int]chan struct{}
-	intr    chan interface{}
-	bmDone  chan error
-	wg      sync.WaitGroup
-	t0      time.Time
+	// header injection between two reads of the synchronisation
+	armed, injected int32
+	hdrMu           sync.Mutex // serialises additions to the chain (driver and injection)
+	maxLen          int
+	planFn          func(id int)
+	hdrErr          string
+	serving         map[int]int           // per block id: sources currently working on it
+	gates           map[int]chan struct{} // per block id: closed when a second source is asked (simultaneous scenario)
+	fail            map[int][]string      // per block id: outcomes of successive RequestBlock calls before it is served
+	hold            map[int]chan struct{}
+	intr            chan interface{}
+	bmDone          chan error
+	wg              sync.WaitGroup
+	t0              time.Time
 }
 
 func (w *bsWorld) stamp(e bsEvent) bsEvent {
@@ -274,7 +299,8 @@ func newBsWorld(n, start int, processed []int, firstID int) *bsWorld {
 	cfg := bitcoin_reader.DefaultConfig()
 	cfg.StartBlockHeight = start
 	cfg.StartupDelay = config.NewDuration(time.Hour)
-	w.nm = bitcoin_reader.NewNodeManager("/verif:1/", cfg, w.repo, bitcoin_reader.NewPeerRepository(storage.NewMockStorage(), ""))
+	w.nm = bitcoin_reader.NewNodeManager("/verif:1/", cfg, &bsHeaders{Repository: w.repo, w: w},
+		bitcoin_reader.NewPeerRepository(storage.NewMockStorage(), ""))
 	w.bm = bitcoin_reader.NewBlockManager(w.btm, w, bsConc, 2*time.Millisecond)
 	proc := &bsProcessor{countingProcessor: newCountingProcessor(), w: w}
 	w.nm.SetBlockManager(w.btm, w.bm, proc)
@@ -299,6 +325,29 @@ func (w *bsWorld) waitIdle(d time.Duration) bool {
 	case <-time.After(d):
 		return false
 	}
+}
+
+// appendHeader lets the chain grow by one header (if there is room): the event, then the header.
+func (w *bsWorld) appendHeader() bool {
+	w.hdrMu.Lock()
+	defer w.hdrMu.Unlock()
+	if w.maxLen == 0 || len(w.chain)-1 >= w.maxLen {
+		return false
+	}
+	h := len(w.chain)
+	b := w.newBlock(h, w.chain[h-1].hash, false)
+	if w.planFn != nil {
+		w.planFn(b.id)
+	}
+	w.mu.Lock()
+	w.events = append(w.events, bsEvent{Ev: "newheader", H: h, ID: b.id})
+	w.mu.Unlock()
+	if err := w.repo.ProcessHeader(w.ctx, b.header); err != nil {
+		w.hdrErr = "harness: " + err.Error()
+		return false
+	}
+	w.chain = append(w.chain, b)
+	return true
 }
 
 // waitSources waits until no source is working on a block any more (a source that was asked while
@@ -360,15 +409,25 @@ func bsRound(sc *bsScenario) string {
 	if !w.waitIdle(5 * time.Second) {
 		return "the synchronisation thread did not finish within 5 s"
 	}
+	w.waitSources(time.Second)
 	var got [][]int
 	var done [][]int
+	var once [][]int // done, with a block processed again within 100 ms of its first processing counted once
+	var lastT int64
 	w.mu.Lock()
 	for _, e := range w.events {
 		if e.Ev == "req" {
 			got = append(got, []int{e.H, e.ID})
 		}
 		if e.Ev == "processed" {
-			done = append(done, []int{e.H, e.ID})
+			d := []int{e.H, e.ID}
+			if n := len(done); n > 0 && fmt.Sprint(done[n-1]) == fmt.Sprint(d) && e.T-lastT < 100000 {
+				done = append(done, d)
+				continue
+			}
+			done = append(done, d)
+			once = append(once, d)
+			lastT = e.T
 		}
 	}
 	w.mu.Unlock()
@@ -376,6 +435,11 @@ func bsRound(sc *bsScenario) string {
 		return fmt.Sprintf("blocks requested %v, spec says %v", got, sc.Reqs)
 	}
 	if fmt.Sprint(done) != fmt.Sprint(sc.Reqs) && !(len(done) == 0 && len(sc.Reqs) == 0) {
+		if fmt.Sprint(once) == fmt.Sprint(sc.Reqs) {
+			// the race of known finding F-C05-1: the request delay started another download of the block at the
+			// moment the first one completed
+			return fmt.Sprintf("TWICE-WITHIN-100MS blocks processed %v, spec says %v", done, sc.Reqs)
+		}
 		return fmt.Sprintf("blocks processed %v, spec says %v", done, sc.Reqs)
 	}
 	return ""
@@ -447,23 +511,14 @@ func bsTraceOne(id int, seed int64, orphan bool) bsTrace {
 	for i := 1; i <= n; i++ {
 		plan(i)
 	}
+	w.maxLen = maxLen
+	w.planFn = plan
 	addHeader := func() bool {
-		if len(w.chain)-1 >= maxLen {
-			return false
+		ok := w.appendHeader()
+		if w.hdrErr != "" {
+			tr.Note = w.hdrErr
 		}
-		h := len(w.chain)
-		b := w.newBlock(h, w.chain[h-1].hash, false)
-		plan(b.id)
-		// the header and the trigger the node manager issues for it
-		w.mu.Lock()
-		w.events = append(w.events, bsEvent{Ev: "newheader", H: h, ID: b.id})
-		w.mu.Unlock()
-		if err := w.repo.ProcessHeader(w.ctx, b.header); err != nil {
-			tr.Note = "harness: " + err.Error()
-			return false
-		}
-		w.chain = append(w.chain, b)
-		return true
+		return ok
 	}
 	trigger := func() {
 		w.log(bsEvent{Ev: "trigger"})
@@ -477,8 +532,16 @@ func bsTraceOne(id int, seed int64, orphan bool) bsTrace {
 		// (handled below after the first trigger)
 	}
 	steps := 2 + rng.Intn(5)
+	var triggered int32
+	catchUp := func() {
+		// the trigger the node manager issues for a header that arrived between two reads of the synchronisation
+		for triggered < atomic.LoadInt32(&w.injected) {
+			triggered++
+			trigger()
+		}
+	}
 	for s := 0; s < steps; s++ {
-		switch rng.Intn(4) {
+		switch rng.Intn(5) {
 		case 0:
 			time.Sleep(time.Duration(rng.Intn(3000)) * time.Microsecond)
 		case 1, 2:
@@ -487,10 +550,25 @@ func bsTraceOne(id int, seed int64, orphan bool) bsTrace {
 			}
 		case 3:
 			trigger()
+		case 4:
+			// the next round reads the tip, and a header arrives before it reads anything else
+			atomic.StoreInt32(&w.armed, 1)
+			trigger()
 		}
+		catchUp()
 	}
-	if !w.waitIdle(8 * time.Second) {
-		tr.Note = "the synchronisation thread did not finish within 8 s"
+	for k := 0; k < 3; k++ {
+		if !w.waitIdle(8 * time.Second) {
+			tr.Note = "the synchronisation thread did not finish within 8 s"
+		}
+		if triggered == atomic.LoadInt32(&w.injected) {
+			break
+		}
+		catchUp()
+	}
+	atomic.StoreInt32(&w.armed, 0)
+	if w.hdrErr != "" {
+		tr.Note = w.hdrErr
 	}
 	w.waitSources(time.Second)
 	w.log(bsEvent{Ev: "idle", Set: w.processedSet()})
